@@ -233,7 +233,7 @@ def children(trace, prefix_len, max_preemptions):
         continue
       cost = counts[i] + (1 if (prev is not None and prev in run and alt != prev) else 0)
       if cost <= max_preemptions:
-        yield choices[:i] + [alt]
+        yield cost, choices[:i] + [alt]
 
 
 def explore(run_schedule, max_preemptions, max_schedules, stop=None):
@@ -241,13 +241,17 @@ def explore(run_schedule, max_preemptions, max_schedules, stop=None):
 
   run_schedule(prefix) -> Scheduler (after the run). Returns (n_runs, complete).
   """
-  stack = [[]]
+  # buckets by number of pre-emptions, cheapest first: under a cap on the number of
+  # schedules every schedule with k pre-emptions is run before any with k+1 (most
+  # interleaving defects need a single pre-emption at the right place)
+  buckets = [[] for _ in range(max_preemptions + 1)]
+  buckets[0].append([])
   seen = set()
   n = 0
-  while stack:
+  while any(buckets):
     if n >= max_schedules or (stop is not None and stop()):
       return n, False
-    prefix = stack.pop()
+    prefix = next(b for b in buckets if b).pop()
     sched = run_schedule(prefix)
     n += 1
     key = tuple(sched.choices())
@@ -256,6 +260,6 @@ def explore(run_schedule, max_preemptions, max_schedules, stop=None):
     seen.add(key)
     if sched.diverged:
       continue
-    for child in children(sched.trace, len(prefix), max_preemptions):
-      stack.append(child)
+    for cost, child in children(sched.trace, len(prefix), max_preemptions):
+      buckets[cost].append(child)
   return n, True
